@@ -117,6 +117,8 @@ def features(pl, fmt_keywords=FMT_KEYWORDS_FALLBACK):
             elif k == "Func" and isinstance(v, dict):
                 for p in (v.get("params") or []) + (v.get("named_params") or []):
                     written_part(p.get("name", "a"))
+                if any(isinstance(p, dict) and p.get("ty") is not None for p in (v.get("named_params") or [])):
+                    fs.add("named-param-type")
             elif k in ("VarDef", "TypeDef", "ModuleDef") and isinstance(v, dict):
                 written_part(v.get("name", "a"))
             elif k == "ImportDef" and isinstance(v, dict):
@@ -138,7 +140,7 @@ def features(pl, fmt_keywords=FMT_KEYWORDS_FALLBACK):
     visit(pl, ())
 
     # a doc comment is the only thing that separates two top-level pipelines; the formatter drops it
-    # (Coq: FmtStmt.adjacent_mains); the value of a main pipeline is a pipeline with an alias (FmtStmt.aliased_pipeline)
+    # (Coq: FmtStmt.adjacent_mains).  (`main-pipeline-alias` is gone: repaired by commit e3202e5)
     def stmts_of(m):
         ss = m.get("stmts") if isinstance(m, dict) else None
         if isinstance(ss, list):
@@ -148,8 +150,6 @@ def features(pl, fmt_keywords=FMT_KEYWORDS_FALLBACK):
                     continue
                 vd = st.get("VarDef")
                 is_pipe = isinstance(vd, dict) and vd.get("kind") in ("Main", "Into")
-                if is_pipe and isinstance(vd.get("value"), dict) and "Pipeline" in vd["value"] and vd["value"].get("alias") is not None:
-                    fs.add("main-pipeline-alias")
                 if is_pipe and prev_main and st.get("doc_comment") is not None and not st.get("annotations"):
                     fs.add("doc-comment-split")
                 prev_main = isinstance(vd, dict) and vd.get("kind") == "Main"
